@@ -43,7 +43,7 @@ M = [
     ("c07-eps-unconverted", "C07", "cfg_algorithms.py", "    if not G.is_chomsky():\n        G = cfg_to_chomsky(G)\n        if verbose:", "    if w == '':\n        return Rule(G.S, Alternative([])) in G.R\n    if not G.is_chomsky():\n        G = cfg_to_chomsky(G)\n        if verbose:"),
     ("c08-nullable-drop", "C08", "cfg_algorithms.py", "        result = result + y\n", "        result = result + y[:1]\n"),
     ("c08-unit-first-only", "C08", "cfg_algorithms.py", "                if not r1 in R1:\n                    R1.append(r1)", "                if not r1 in R1:\n                    R1.append(r1)\n                    break"),
-    ("c08-fresh-26", "C08", "cfg_algorithms.py", "        while A in V:\n            A = Variable('{}{}'.format(hint, index))\n            index = index + 1\n        return A", "        return A"),
+    ("c08-fresh-26", "C08", "cfg_algorithms.py", "    while A in V:\n        A = Variable('{}{}'.format(hint, index))\n        index = index + 1\n    return A", "    return A"),
     ("c08-no-deepcopy", "C08", "cfg_algorithms.py", "def cfg_to_chomsky(G: CFG, verbose: bool = False) -> CFG:\n    G = copy.deepcopy(G)", "def cfg_to_chomsky(G: CFG, verbose: bool = False) -> CFG:\n    G = copy.copy(G)"),
     ("c08-eps-keep-start-only-if-first", "C08", "cfg_algorithms.py", "            if not symbols and rule.variable in W - {S}:", "            if not symbols and rule.variable in W:"),
     ("c09-pop-ignores-top", "C09", "pda_algorithms.py", "    return u == P.epsilon or (stack and stack[-1] == u)", "    return u == P.epsilon or bool(stack)"),
